@@ -61,7 +61,7 @@ def int_enc(size, encoding="unsigned", bo=MSB, default="-", ctx=()):
 
 
 def generate(rng, tier):
-    nspl = 40 if tier == "quick" else 400
+    nspl = 40 if tier == "quick" else 30000
     for _ in range(nspl):
         xs, ys, pts = spline_sx(rng)
         for order in (0, 1):
@@ -77,7 +77,7 @@ def generate(rng, tier):
     for _ in range(5):
         c = ["spline", "0", "0", [fnum(Fraction(1)), fnum(Fraction(2))]]
         yield f"cal {sx(c)} i1", "spline-single-point"
-    npoly = 120 if tier == "quick" else 1200
+    npoly = 120 if tier == "quick" else 12000
     for _ in range(npoly):
         terms = []
         for _ in range(rng.randrange(0, 5)):
@@ -91,7 +91,7 @@ def generate(rng, tier):
         xt = f"i{x}" if isinstance(x, int) else fnum(x)
         yield f"cal {sx(['poly'] + terms)} {xt}", "poly"
     # --- parameter types: context precedence, enumerations, booleans
-    nt = 150 if tier == "quick" else 1500
+    nt = 150 if tier == "quick" else 12000
     for _ in range(nt):
         size = rng.choice([3, 8, 12, 16])
         data = rng.randbytes(4); pos = rng.randrange(0, 9)
@@ -113,7 +113,7 @@ def generate(rng, tier):
         pt = ["pt", S("T"), kind, enc]
         yield f"ptype {sx(pt)} {hx(data)} {pos} {sx(items)}", f"ptype-{kind if isinstance(kind, str) else 'enum'}"
     # booleans over float / string / binary encodings; enum over float and string encodings
-    for _ in range(40 if tier == "quick" else 300):
+    for _ in range(40 if tier == "quick" else 3000):
         data = rng.choice([b"\x00" * 4, rng.randbytes(4), b"\x00\x00\x00\x01", b"\x80\x00\x00\x00", b"AB\x00\x00"])
         enc = rng.choice([
             ["float", "32", S("IEEE754"), S(MSB), ["-", []]],
@@ -122,7 +122,7 @@ def generate(rng, tier):
             ["bin", "0", "-", "1", "-", "-"],
         ])
         yield f"ptype {sx(['pt', S('T'), 'bool', enc])} {hx(data)} 0 ()", "ptype-bool-other"
-    for _ in range(20 if tier == "quick" else 100):
+    for _ in range(20 if tier == "quick" else 1000):
         data = rng.choice([b"AB", b"ON", b"\x3c\x00", b"\x40\x00", b"\x00\x00"])
         if rng.random() < 0.5:
             enc = ["str", S("UTF-8"), "16", "-", "-", "1", "-", "-", "-", "-"]
